@@ -26,6 +26,7 @@ def cfgs(ctx):
         out.append(F.base("c14-tri3", F.A3, t3, initups=[l2], exits=[["b"]], announcers=["a"], maxann=2, conn=2, replay=False))
         l4 = F.L(("a", "b"), ("b", "c"), ("c", "d"))
         out.append(F.base("c14-relay4", F.A4, l4, initups=[l4[:2]], exits=[["b"]], announcers=["a"], maxann=2, conn=1))
+        out.append(F.base("c14-relay4b", F.A4, l4, initups=[l4[:2]], exits=[["b"]], announcers=["a", "b"], maxann=2, conn=1, replay=False))
     return out
 
 
@@ -33,7 +34,7 @@ def run(ctx):
     runs = F.model(ctx, cfgs(ctx))
     caught = F.sensitivity(ctx, DEVS)
     rep = F.replay(ctx, runs)
-    ntr, nops = (25, 50) if ctx.quick() else (400, 90)
+    ntr, nops = (25, 50) if ctx.quick() else (1200, 100)
     tr = F.traces(ctx, "TestZZVFloodTrace", {"ZZV_TRACES": ntr, "ZZV_OPS": nops}, "c14trace")
     F.report(ctx, "C14", rep, [tr])
     st, trn = F.coverage(runs)
